@@ -57,9 +57,14 @@ def derivative(poly: PolyLike, *diffvars: Union[ndpoly, str, int]) -> ndpoly:
             idx = poly.names.index(names[0])
 
         exponents = poly.exponents
+        # the exponents are stored as uint32: as factors they would turn boolean
+        # and narrow unsigned coefficients into uint32, which wraps around
+        factors = exponents[:, idx]
+        if poly.dtype.kind in "bu" and poly.dtype.itemsize < 8:
+            factors = factors.astype(numpy.int64)
         coefficients = [
-            (exponent[idx] * coefficient.T).T
-            for exponent, coefficient in zip(exponents, poly.coefficients)
+            (factor * coefficient.T).T
+            for factor, coefficient in zip(factors, poly.coefficients)
         ]
         # terms free of the variable vanish (and must not be decremented, as
         # the exponents are unsigned)
